@@ -36,10 +36,11 @@ AtomArgs == {A(a) : a \in Atoms}
 FlatTuples == {<<<<a>>, <<>>>> : a \in AtomArgs} \cup {<<<<A("1")>>, <<<<"k", b>>>>>> : b \in AtomArgs}
               \cup {<<<<>>, <<>>>>}
 
-\* flat part: the full product of kind x name x arguments x options x exports x construction route
-UFlat == {E(k, n, at[1], at[2], o, x, via) :
-            k \in {"task", "sched"}, n \in Names, at \in FlatTuples, o \in OptSeqs, x \in ExpoSeqs,
-            via \in {"api", "ctor"}}
+\* flat part: the full product of kind x arguments x options x exports x construction route for the
+\* name n1, and a kind x name x options slice for the other names
+UFlat == {E(k, "n1", at[1], at[2], o, x, via) :
+            k \in {"task", "sched"}, at \in FlatTuples, o \in OptSeqs, x \in ExpoSeqs, via \in {"api", "ctor"}}
+         \cup {E(k, n, <<A("1")>>, <<>>, o, <<>>, "api") : k \in {"task", "sched"}, n \in Names, o \in OptSeqs}
 \* nested part: expressions as arguments of task / scheduler / operator expressions
 UNest == {E(k, "n1", <<X(e)>>, <<>>, o, <<>>, "api") :
             k \in {"task", "sched"}, e \in Inner, o \in {OptChoices[1], OptChoices[2]}}
